@@ -19,12 +19,19 @@
              "worse"      choose swaps when c1 is LESS loaded (returns the worse one)
              "nostamp"    a forced pick does not stamp the connection
              "nonatomic"  inflight-- as load;store (lost update)
-             "nocas"      statistics logged by every completion past the interval   *)
+             "nocas"      statistics logged by every completion past the interval
+
+   Configs: P2cImplMC / MC1 / MC3 (Conc = FALSE, 2 / 1 / 3 connections: PROPERTY AbsSpec + invariants),
+   P2cImplConc (Conc = TRUE), P2cImplBug* and P2cImplStarve (documented counterexamples),
+   P2cImplGen2 (one history per reachable state), P2cImplSim2 / Sim3 (-simulate: long histories;
+   model time unit 1 s: FP = 1, LogIv = 60).  Every action is taken in some config (Sel: 3
+   connections, DInfW: "nonatomic").                                                          *)
 EXTENDS Integers, Sequences, FiniteSets, TLC, Json
 
 CONSTANTS
   FP, LogIv, InitSucc, Thr, Penalty, PickTimes, LagScale,
-  MixOK(_, _, _, _), Root(_), Advs, LagVals, TokIds,     \* as in P2c.tla
+  MixOK(_, _, _, _), Advs, LagVals, RootVals, TokIds,    \* as in P2c.tla
+  Root(_),    \* floor(sqrt(x)): c.load() computes it from the lag
   N,          \* ready connections (>= 1)
   T0,         \* clock at Build
   MaxNow,     \* bound of the clock
@@ -39,13 +46,14 @@ VARIABLES
   lock,    \* p.lock: 0 or the holder
   pc,      \* pc[p]: control point of goroutine p
   loc,     \* loc[p]: its locals
-  snap,    \* [now, cs, stamp, toks]: Layer-P state as of the last completed operation
+  snap,    \* [now, cs, stamp, toks, line]: Layer-P state as of the last completed operation
+  lg,      \* lg[c]: requests of c reported in statistics lines so far (observer)
   cnt,     \* cnt[c] = [pe, ds, de]: picks ended / done-callbacks started / ended (observer)
   nops,    \* operations started
   pass,    \* pass[c]: consecutive picks that passed over c while it was an overdue candidate
   hist     \* completed operations (generation)
 
-ivars == <<inow, sc, istamp, lock, pc, loc, snap, cnt, nops, pass, hist>>
+ivars == <<inow, sc, istamp, lock, pc, loc, snap, lg, cnt, nops, pass, hist>>
 
 Conns == 1..N
 Max(a, b) == IF a >= b THEN a ELSE b
@@ -65,14 +73,18 @@ MayStart == (Conc \/ Quiet) /\ nops < MaxOps
 
 \* tokens outstanding in the sense of Layer P: handed out and callback not yet returned
 TokOf(p) == [id |-> p, c |-> loc[p].ch, start |-> loc[p].tstart]
-Capture(scv, stv, tk) == [now |-> inow, cs |-> scv, stamp |-> stv, toks |-> tk]
+\* Layer P caches the root of the lag next to it
+WithRoot(scv) == [c \in Conns |-> [inf |-> scv[c].inf, lag |-> scv[c].lag, rt |-> Root(scv[c].lag + 1), succ |-> scv[c].succ,
+                                   last |-> scv[c].last, pick |-> scv[c].pick, req |-> scv[c].req]]
+Capture(scv, stv, tk, ln) == [now |-> inow, cs |-> WithRoot(scv), stamp |-> stv, toks |-> tk, line |-> ln]
 
 IInit ==
   /\ inow = T0 /\ istamp = 0 /\ lock = 0
   /\ sc = [c \in Conns |-> FreshConn]
   /\ pc = [p \in Procs |-> "idle"]
   /\ loc = [p \in Procs |-> NoLoc]
-  /\ snap = [now |-> T0, cs |-> [c \in Conns |-> FreshConn], stamp |-> 0, toks |-> {}]
+  /\ snap = [now |-> T0, cs |-> WithRoot([c \in Conns |-> FreshConn]), stamp |-> 0, toks |-> {}, line |-> <<>>]
+  /\ lg = [c \in Conns |-> 0]
   /\ cnt = [c \in Conns |-> [pe |-> 0, ds |-> 0, de |-> 0]]
   /\ nops = 0 /\ hist = <<>> /\ pass = [c \in Conns |-> 0]
 
@@ -83,16 +95,16 @@ SetLoc(p, r) == loc' = [loc EXCEPT ![p] = r]
 Advance(d) ==
   /\ MayStart /\ inow + d <= MaxNow
   /\ inow' = inow + d
-  /\ snap' = [snap EXCEPT !.now = inow + d]
+  /\ snap' = [snap EXCEPT !.now = inow + d, !.line = <<>>]
   /\ nops' = nops + 1
   /\ hist' = IF Emit THEN Append(hist, [op |-> "adv", d |-> d]) ELSE hist
-  /\ UNCHANGED <<sc, istamp, lock, pc, loc, cnt, pass>>
+  /\ UNCHANGED <<lg, sc, istamp, lock, pc, loc, cnt, pass>>
 
 \* ---- Pick ----
 Call(p) ==        \* the goroutine is about to call Pick (the drivers log "ps" here)
   /\ pc[p] = "idle" /\ MayStart
   /\ Goto(p, "want") /\ SetLoc(p, NoLoc) /\ nops' = nops + 1
-  /\ UNCHANGED <<inow, sc, istamp, lock, snap, cnt, pass, hist>>
+  /\ UNCHANGED <<lg, inow, sc, istamp, lock, snap, cnt, pass, hist>>
 
 LockPick(p) ==    \* p.lock.Lock(); switch len(p.conns)
   /\ pc[p] = "want" /\ lock = 0
@@ -100,7 +112,7 @@ LockPick(p) ==    \* p.lock.Lock(); switch len(p.conns)
   /\ IF N = 1 THEN Goto(p, "c_start") /\ SetLoc(p, [loc[p] EXCEPT !.c1 = 1, !.c2 = 0])
      ELSE IF N = 2 THEN Goto(p, "c_start") /\ SetLoc(p, [loc[p] EXCEPT !.c1 = 1, !.c2 = 2])
      ELSE Goto(p, "sel") /\ UNCHANGED loc
-  /\ UNCHANGED <<inow, sc, istamp, snap, cnt, nops, pass, hist>>
+  /\ UNCHANGED <<lg, inow, sc, istamp, snap, cnt, nops, pass, hist>>
 
 Sel(p) ==         \* one round of: a := Intn(n); b := Intn(n-1) (+1); healthy && healthy -> break
   /\ pc[p] = "sel"
@@ -108,7 +120,7 @@ Sel(p) ==         \* one round of: a := Intn(n); b := Intn(n-1) (+1); healthy &&
        LET att == loc[p].att + 1 IN
        /\ SetLoc(p, [loc[p] EXCEPT !.att = att, !.c1 = a, !.c2 = b, !.draws = Append(@, <<a, b>>)])
        /\ IF (HealthyC(a) /\ HealthyC(b)) \/ att = PickTimes THEN Goto(p, "c_start") ELSE UNCHANGED pc
-  /\ UNCHANGED <<inow, sc, istamp, lock, snap, cnt, nops, pass, hist>>
+  /\ UNCHANGED <<lg, inow, sc, istamp, lock, snap, cnt, nops, pass, hist>>
 
 CStart(p) ==      \* choose: start := timex.Now(); c2 == nil -> stamp c1, return it
   /\ pc[p] = "c_start"
@@ -118,11 +130,11 @@ CStart(p) ==      \* choose: start := timex.Now(); c2 == nil -> stamp c1, return
             /\ Goto(p, "i_inf")
        ELSE /\ SetLoc(p, [loc[p] EXCEPT !.start = inow])
             /\ Goto(p, "c_l1") /\ UNCHANGED sc
-  /\ UNCHANGED <<inow, istamp, lock, snap, cnt, nops, pass, hist>>
+  /\ UNCHANGED <<lg, inow, istamp, lock, snap, cnt, nops, pass, hist>>
 
 CL1(p) == /\ pc[p] = "c_l1"
           /\ SetLoc(p, [loc[p] EXCEPT !.l1 = LoadOf(loc[p].c1)]) /\ Goto(p, "c_l2")
-          /\ UNCHANGED <<inow, sc, istamp, lock, snap, cnt, nops, pass, hist>>
+          /\ UNCHANGED <<lg, inow, sc, istamp, lock, snap, cnt, nops, pass, hist>>
 
 CL2(p) ==         \* if c1.load() > c2.load() { c1, c2 = c2, c1 }
   /\ pc[p] = "c_l2"
@@ -131,7 +143,7 @@ CL2(p) ==         \* if c1.load() > c2.load() { c1, c2 = c2, c1 }
      IN SetLoc(p, IF swap THEN [loc[p] EXCEPT !.l2 = l2, !.c1 = loc[p].c2, !.c2 = loc[p].c1]
                   ELSE [loc[p] EXCEPT !.l2 = l2])
   /\ Goto(p, "c_pick")
-  /\ UNCHANGED <<inow, sc, istamp, lock, snap, cnt, nops, pass, hist>>
+  /\ UNCHANGED <<lg, inow, sc, istamp, lock, snap, cnt, nops, pass, hist>>
 
 CPick(p) ==       \* pick := c2.pick; if start-pick > forcePick && CAS(c2.pick, pick, start) return c2
   /\ pc[p] = "c_pick"                           \* (only Pick writes pick, under the mutex: the CAS succeeds)
@@ -145,24 +157,24 @@ CPick(p) ==       \* pick := c2.pick; if start-pick > forcePick && CAS(c2.pick, 
                               ELSE IF c \in {loc[p].c1, loc[p].c2} /\ loc[p].start - sc[c].pick > FP
                                      THEN Min(pass[c] + 1, 2) ELSE pass[c]]
   /\ Goto(p, "i_inf")
-  /\ UNCHANGED <<inow, istamp, lock, snap, cnt, nops, hist>>
+  /\ UNCHANGED <<lg, inow, istamp, lock, snap, cnt, nops, hist>>
 
 IInf(p) == /\ pc[p] = "i_inf"
            /\ sc' = [sc EXCEPT ![loc[p].ch].inf = @ + 1] /\ Goto(p, "i_req")
-           /\ UNCHANGED <<inow, istamp, lock, loc, snap, cnt, nops, pass, hist>>
+           /\ UNCHANGED <<lg, inow, istamp, lock, loc, snap, cnt, nops, pass, hist>>
 
 IReq(p) == /\ pc[p] = "i_req"
            /\ sc' = [sc EXCEPT ![loc[p].ch].req = @ + 1] /\ Goto(p, "build")
-           /\ UNCHANGED <<inow, istamp, lock, loc, snap, cnt, nops, pass, hist>>
+           /\ UNCHANGED <<lg, inow, istamp, lock, loc, snap, cnt, nops, pass, hist>>
 
 Build(p) ==       \* buildDoneFunc: start := timex.Now(); deferred Unlock; return
   /\ pc[p] = "build"
   /\ SetLoc(p, [loc[p] EXCEPT !.tstart = inow])
   /\ lock' = 0 /\ Goto(p, "hold")
   /\ cnt' = [cnt EXCEPT ![loc[p].ch].pe = @ + 1]
-  /\ snap' = Capture(sc, istamp, snap.toks \cup {[id |-> p, c |-> loc[p].ch, start |-> inow]})
+  /\ snap' = Capture(sc, istamp, snap.toks \cup {[id |-> p, c |-> loc[p].ch, start |-> inow]}, <<>>)
   /\ hist' = IF Emit THEN Append(hist, [op |-> "pick", tok |-> p, draws |-> loc[p].draws]) ELSE hist
-  /\ UNCHANGED <<inow, sc, istamp, nops, pass>>
+  /\ UNCHANGED <<lg, inow, sc, istamp, nops, pass>>
 
 \* ---- the done-callback of the token held by p ----
 DoneCall(p, ok) ==
@@ -170,18 +182,18 @@ DoneCall(p, ok) ==
   /\ SetLoc(p, [loc[p] EXCEPT !.ok = ok]) /\ Goto(p, "d_inf")
   /\ cnt' = [cnt EXCEPT ![loc[p].ch].ds = @ + 1]
   /\ nops' = nops + 1
-  /\ UNCHANGED <<inow, sc, istamp, lock, snap, pass, hist>>
+  /\ UNCHANGED <<lg, inow, sc, istamp, lock, snap, pass, hist>>
 
 DInf(p) ==        \* atomic.AddInt64(&c.inflight, -1)
   /\ pc[p] = "d_inf"
   /\ IF Variant = "nonatomic"
        THEN SetLoc(p, [loc[p] EXCEPT !.tmp = sc[loc[p].ch].inf]) /\ Goto(p, "d_inf_w") /\ UNCHANGED sc
        ELSE sc' = [sc EXCEPT ![loc[p].ch].inf = @ - 1] /\ Goto(p, "d_last") /\ UNCHANGED loc
-  /\ UNCHANGED <<inow, istamp, lock, snap, cnt, nops, pass, hist>>
+  /\ UNCHANGED <<lg, inow, istamp, lock, snap, cnt, nops, pass, hist>>
 
 DInfW(p) == /\ pc[p] = "d_inf_w"
             /\ sc' = [sc EXCEPT ![loc[p].ch].inf = loc[p].tmp - 1] /\ Goto(p, "d_last")
-            /\ UNCHANGED <<inow, istamp, lock, loc, snap, cnt, nops, pass, hist>>
+            /\ UNCHANGED <<lg, inow, istamp, lock, loc, snap, cnt, nops, pass, hist>>
 
 DLast(p) ==       \* now := timex.Now(); last := Swap(&c.last, now); td := max(now-last, 0)
   /\ pc[p] = "d_last"
@@ -189,12 +201,12 @@ DLast(p) ==       \* now := timex.Now(); last := Swap(&c.last, now); td := max(n
      /\ SetLoc(p, [loc[p] EXCEPT !.dnow = inow, !.td = Max(0, inow - sc[c].last)])
      /\ sc' = [sc EXCEPT ![c].last = inow]
   /\ Goto(p, "d_olag")
-  /\ UNCHANGED <<inow, istamp, lock, snap, cnt, nops, pass, hist>>
+  /\ UNCHANGED <<lg, inow, istamp, lock, snap, cnt, nops, pass, hist>>
 
 DOlag(p) ==       \* olag := Load(&c.lag)   (olag == 0 -> w = 0, remembered in loc.old)
   /\ pc[p] = "d_olag"
   /\ SetLoc(p, [loc[p] EXCEPT !.old = sc[loc[p].ch].lag]) /\ Goto(p, "d_lag")
-  /\ UNCHANGED <<inow, sc, istamp, lock, snap, cnt, nops, pass, hist>>
+  /\ UNCHANGED <<lg, inow, sc, istamp, lock, snap, cnt, nops, pass, hist>>
 
 DLag(p) ==        \* Store(&c.lag, olag*w + lag*(1-w))
   /\ pc[p] = "d_lag"
@@ -203,12 +215,12 @@ DLag(p) ==        \* Store(&c.lag, olag*w + lag*(1-w))
        /\ IF loc[p].old = 0 THEN nl = sl ELSE MixOK(loc[p].old, sl, loc[p].td, nl)
        /\ sc' = [sc EXCEPT ![loc[p].ch].lag = nl]
   /\ Goto(p, "d_osucc")
-  /\ UNCHANGED <<inow, istamp, lock, loc, snap, cnt, nops, pass, hist>>
+  /\ UNCHANGED <<lg, inow, istamp, lock, loc, snap, cnt, nops, pass, hist>>
 
 DOsucc(p) ==      \* osucc := Load(&c.success)  (w still 0 if olag was 0: kept in loc.old)
   /\ pc[p] = "d_osucc"
   /\ SetLoc(p, [loc[p] EXCEPT !.tmp = sc[loc[p].ch].succ]) /\ Goto(p, "d_succ")
-  /\ UNCHANGED <<inow, sc, istamp, lock, snap, cnt, nops, pass, hist>>
+  /\ UNCHANGED <<lg, inow, sc, istamp, lock, snap, cnt, nops, pass, hist>>
 
 DSucc(p) ==       \* Store(&c.success, osucc*w + success*(1-w))
   /\ pc[p] = "d_succ"
@@ -217,13 +229,13 @@ DSucc(p) ==       \* Store(&c.success, osucc*w + success*(1-w))
        /\ IF loc[p].old = 0 THEN ns = ss ELSE MixOK(loc[p].tmp, ss, loc[p].td, ns)
        /\ sc' = [sc EXCEPT ![loc[p].ch].succ = ns]
   /\ Goto(p, "d_stamp")
-  /\ UNCHANGED <<inow, istamp, lock, loc, snap, cnt, nops, pass, hist>>
+  /\ UNCHANGED <<lg, inow, istamp, lock, loc, snap, cnt, nops, pass, hist>>
 
 \* the callback returns
-Finish(p, scv) ==
+Finish(p, scv, ln) ==
   /\ Goto(p, "idle")
   /\ cnt' = [cnt EXCEPT ![loc[p].ch].de = @ + 1]
-  /\ snap' = Capture(scv, istamp, snap.toks \ {t \in snap.toks : t.id = p})
+  /\ snap' = Capture(scv, istamp, snap.toks \ {t \in snap.toks : t.id = p}, ln)
   /\ hist' = IF Emit THEN Append(hist, [op |-> "done", tok |-> p, ok |-> loc[p].ok]) ELSE hist
 
 DStamp(p) ==      \* stamp := p.stamp.Load(); if now-stamp >= logInterval ...
@@ -231,25 +243,26 @@ DStamp(p) ==      \* stamp := p.stamp.Load(); if now-stamp >= logInterval ...
   /\ IF loc[p].dnow - istamp >= LogIv
        THEN /\ SetLoc(p, [loc[p] EXCEPT !.st = istamp]) /\ Goto(p, "d_cas")
             /\ UNCHANGED <<snap, cnt, hist>>
-       ELSE Finish(p, sc) /\ UNCHANGED loc
-  /\ UNCHANGED <<inow, sc, istamp, lock, nops, pass>>
+       ELSE Finish(p, sc, <<>>) /\ UNCHANGED loc
+  /\ UNCHANGED <<lg, inow, sc, istamp, lock, nops, pass>>
 
 DCas(p) ==        \* ... if p.stamp.CompareAndSwap(stamp, now) { p.logStats() }
   /\ pc[p] = "d_cas"
   /\ IF istamp = loc[p].st \/ Variant = "nocas"
        THEN istamp' = loc[p].dnow /\ Goto(p, "ls_lock") /\ UNCHANGED <<snap, cnt, hist>>
-       ELSE Finish(p, sc) /\ UNCHANGED istamp
-  /\ UNCHANGED <<inow, sc, lock, loc, nops, pass>>
+       ELSE Finish(p, sc, <<>>) /\ UNCHANGED istamp
+  /\ UNCHANGED <<lg, inow, sc, lock, loc, nops, pass>>
 
 LsLock(p) == /\ pc[p] = "ls_lock" /\ lock = 0
              /\ lock' = p /\ Goto(p, "ls_do")
-             /\ UNCHANGED <<inow, sc, istamp, loc, snap, cnt, nops, pass, hist>>
+             /\ UNCHANGED <<lg, inow, sc, istamp, loc, snap, cnt, nops, pass, hist>>
 
-LsDo(p) ==        \* for every conn: Swap(&conn.requests, 0); Unlock
+LsDo(p) ==        \* for every conn: "conn, load(), Swap(&conn.requests, 0)"; Statf; Unlock
   /\ pc[p] = "ls_do"
   /\ sc' = [c \in Conns |-> [sc[c] EXCEPT !.req = 0]]
+  /\ lg' = [c \in Conns |-> lg[c] + sc[c].req]
   /\ lock' = 0
-  /\ Finish(p, [c \in Conns |-> [sc[c] EXCEPT !.req = 0]])
+  /\ Finish(p, [c \in Conns |-> [sc[c] EXCEPT !.req = 0]], [c \in Conns |-> <<LoadOf(c), sc[c].req>>])
   /\ UNCHANGED <<inow, istamp, loc, nops, pass>>
 
 Step(p) ==
@@ -266,8 +279,10 @@ INext == (\E d \in Advs : Advance(d)) \/ (\E p \in Procs : Step(p)) \/ Over
 ISpec == IInit /\ [][INext]_ivars
 
 \* ---- refinement: every completed operation is a step of Layer P (Conc = FALSE) ----
-Abs == INSTANCE P2c WITH n <- N, now <- snap.now, cs <- snap.cs, stamp <- snap.stamp, toks <- snap.toks
-AbsSpec == Abs!PInitWith(N, T0) /\ [][Abs!PNextB]_<<snap>>
+RootEq(l, r) == r = Root(l + 1)
+Abs == INSTANCE P2c WITH n <- N, now <- snap.now, cs <- snap.cs, stamp <- snap.stamp, toks <- snap.toks,
+                         line <- snap.line, RootOK <- RootEq
+AbsSpec == Abs!PInitWith(N, T0) /\ [][Abs!PNextR]_<<snap>>
 
 \* ---- invariants of the interleaved algorithm (Conc = TRUE) ----
 \* what goroutine p contributes to the in-flight counter of c
@@ -291,6 +306,19 @@ IRanges == \A c \in Conns :
   /\ sc[c].lag \in LagVals
   /\ sc[c].pick <= inow /\ sc[c].last <= inow
   /\ sc[c].req >= 0
+\* every pick is reported in exactly one statistics line (Pick and logStats exclude each other)
+IReqConservation == \A c \in Conns :
+  sc[c].req + lg[c] = cnt[c].pe + Cardinality({p \in Procs : pc[p] = "build" /\ loc[p].ch = c})
+\* the draws of a Pick over >= 3 connections stop at the first pair of healthy candidates (Conc = FALSE:
+\* health does not change while the picker's mutex is held)
+IDrawsLaw == (~Conc /\ N >= 3) => \A p \in Procs : pc[p] = "c_start" =>
+  LET ds == loc[p].draws
+      H(d) == HealthyC(d[1]) /\ HealthyC(d[2]) IN
+  /\ Len(ds) \in 1..PickTimes
+  /\ \A i \in 1..Len(ds) : ds[i][1] # ds[i][2]
+  /\ \A i \in 1..(Len(ds) - 1) : ~H(ds[i])
+  /\ Len(ds) < PickTimes => H(ds[Len(ds)])
+  /\ <<loc[p].c1, loc[p].c2>> = ds[Len(ds)]
 LockOK == lock \in {0} \cup Procs /\ (lock # 0 => pc[lock] \in PickStates \cup {"ls_do"})
 \* statistics are logged by one completion per interval (CompareAndSwap on the stamp)
 OneLogger == Cardinality({p \in Procs : pc[p] \in {"ls_lock", "ls_do"}}) <= 1
@@ -308,8 +336,13 @@ MixSmall(old, sample, td, new) ==
 MixGen(old, sample, td, new) ==
   IF td = 0 THEN new = old ELSE new = (old + sample) \div 2
 ISqrtSmall(x) == CHOOSE r \in 0..x : r * r <= x /\ (r + 1) * (r + 1) > x
+GenLags == 0..130      \* cfg: LagVals <- GenLags, RootVals <- GenRoots (generation configs)
+GenRoots == 1..12
 
 \* ---- generation ----
-IView == <<inow, sc, istamp, lock, pc, loc, snap, pass>>
+IView == <<inow, sc, istamp, lock, pc, loc, snap, pass>>     \* lg, cnt, nops: observers
 PrintHist == (Emit /\ Quiet /\ Len(hist) > 0) => PrintT("TRACE " \o ToJson(hist))
+\* simulation (-simulate): behaviours end when the operation budget is used up; only whole histories are printed
+GSpec == IInit /\ [][(\E d \in Advs : Advance(d)) \/ (\E p \in Procs : Step(p))]_ivars
+PrintFinal == (Emit /\ Quiet /\ nops >= MaxOps) => PrintT("TRACE " \o ToJson(hist))
 =============================================================================
